@@ -33,7 +33,7 @@ func ruleInclusiveLoops(c *Ctx, rule string) {
 		loops := inclusiveLoops(fn)
 		calls := 0
 		allInstrs(fn, func(in ssa.Instruction) {
-			if call, ok := in.(*ssa.Call); ok && call.Call.Value == ssa.Value(fn.Params[1]) {
+			if call, ok := in.(*ssa.Call); ok && call.Call.Value == ssa.Value(pAt(fn, 1)) {
 				calls++
 			}
 		})
